@@ -332,18 +332,144 @@ pub fn check<S: Src>(s: &mut S) {
     assert!(x.0 == wop(10, a, b), "assign");
 }
 """)
+    # 11. the derived type itself has inherent methods named like the trait methods, all giving wrong answers: generated code that calls
+    #     `x.clone()` / `a.eq(b)` instead of the fully qualified trait method would pick these up
+    add("self-inherent|clone+eq+cmp+hash+default", "Clone / comparison / Hash / Default on types with wrong-answer inherent methods of the same names",
+        """
+#[derive_ex(Clone, PartialEq, Eq, PartialOrd, Ord, Hash, Default)]
+pub enum E { #[default] A(Evil), B { x: Evil }, C }
+impl E {
+    pub fn clone(&self) -> Self { E::C }
+    pub fn clone_from(&mut self, _source: &Self) { *self = E::C; }
+    pub fn eq(&self, _o: &Self) -> bool { true }
+    pub fn ne(&self, _o: &Self) -> bool { true }
+    pub fn partial_cmp(&self, _o: &Self) -> ::core::option::Option<::core::cmp::Ordering> { ::core::option::Option::None }
+    pub fn cmp(&self, _o: &Self) -> ::core::cmp::Ordering { ::core::cmp::Ordering::Greater }
+    pub fn hash<HH>(&self, _s: &mut HH) {}
+    pub fn default() -> Self { E::C }
+}
+#[derive_ex(Clone, PartialEq, Default)]
+pub struct T { pub a: Evil, pub b: Evil }
+impl T {
+    pub fn clone(&self) -> Self { T { a: Evil(0xEE), b: Evil(0xEE) } }
+    pub fn clone_from(&mut self, _source: &Self) {}
+    pub fn eq(&self, _o: &Self) -> bool { false }
+    pub fn default() -> Self { T { a: Evil(0xEE), b: Evil(0xEE) } }
+}
+""", """
+fn key(e: &E) -> [u8; 2] { match e { E::A(r) => [0, r.0], E::B { x } => [1, x.0], E::C => [2, 0] } }
+pub fn check<S: Src>(s: &mut S) {
+    let (a, b) = (s.u8(), s.u8());
+    let mk = |sel: u8, v: u8| match sel { 0 => E::A(Evil(v)), 1 => E::B { x: Evil(v) }, _ => E::C };
+    let (sx, sy) = (s.below(3) as u8, s.below(3) as u8);
+    let (e, mut f) = (mk(sx, a), mk(sy, b));
+    cover!(sx != sy, "different-variants");
+    cover!(sx == sy && sx < 2, "same-data-variant");
+    let g = ::core::clone::Clone::clone(&e);
+    assert!(key(&g) == key(&e), "enum-clone");
+    ::core::clone::Clone::clone_from(&mut f, &e);
+    assert!(key(&f) == key(&e), "enum-clone_from");
+    let f2 = mk(sy, b);
+    let r = key(&e).cmp(&key(&f2));
+    assert!(::core::cmp::PartialEq::eq(&e, &f2) == (r == Ordering::Equal), "enum-eq");
+    assert!(::core::cmp::PartialOrd::partial_cmp(&e, &f2) == Some(r), "enum-partial_cmp");
+    assert!(::core::cmp::Ord::cmp(&e, &f2) == r, "enum-cmp");
+    let mut h = Rec::new();
+    Hash::hash(&e, &mut h);
+    assert!(h.len == if sx < 2 { 1 } else { 0 } && (sx >= 2 || h.buf[0] == a), "enum-hash-feed");
+    assert!(key(&<E as Default>::default()) == [0, 7], "enum-default");
+    let t = T { a: Evil(a), b: Evil(b) };
+    let u = ::core::clone::Clone::clone(&t);
+    assert!(u.a.0 == a && u.b.0 == b, "struct-clone");
+    let mut w = T { a: Evil(b), b: Evil(a) };
+    ::core::clone::Clone::clone_from(&mut w, &t);
+    assert!(w.a.0 == a && w.b.0 == b, "struct-clone_from");
+    assert!(::core::cmp::PartialEq::eq(&t, &u), "struct-eq");
+    let d = <T as Default>::default();
+    assert!(d.a.0 == 7 && d.b.0 == 7, "struct-default");
+}
+""", unwind=18)
+    # 12. user items called like the generics of the expansion's nested helper functions, inside the field types those helpers mention
+    add("hash-by|items-named-H-and-T", "hash(by = ..) / partial_ord(by = ..) on fields whose types are user items called H and T",
+        """
+#[derive(Clone, Copy)]
+pub struct H(pub u8);
+#[derive(Clone, Copy)]
+pub struct T(pub u8);
+pub fn hb<S2: ::core::hash::Hasher>(v: &H, s: &mut S2) { s.write_u8(v.0 >> 1) }
+pub fn ht<S2: ::core::hash::Hasher>(v: &[T; 1], s: &mut S2) { s.write_u8(v[0].0 >> 1) }
+pub fn eb(a: &H, b: &H) -> bool { a.0 >> 1 == b.0 >> 1 }
+pub fn pb(a: &H, b: &H) -> ::core::option::Option<::core::cmp::Ordering> { ::core::option::Option::Some((a.0 >> 1).cmp(&(b.0 >> 1))) }
+pub fn etb(a: &[T; 1], b: &[T; 1]) -> bool { a[0].0 >> 1 == b[0].0 >> 1 }
+pub fn ptb(a: &[T; 1], b: &[T; 1]) -> ::core::option::Option<::core::cmp::Ordering> { ::core::option::Option::Some((a[0].0 >> 1).cmp(&(b[0].0 >> 1))) }
+#[derive_ex(Hash, PartialEq, PartialOrd)]
+pub struct X { #[hash(by = hb)] #[partial_eq(by = eb)] #[partial_ord(by = pb)] pub h: H, #[hash(by = ht)] #[partial_eq(by = etb)] #[partial_ord(by = ptb)] pub t: [T; 1], pub k: u8 }
+""", """
+pub fn check<S: Src>(s: &mut S) {
+    let (a, b, c, d, e, f) = (s.u8(), s.u8(), s.u8(), s.u8(), s.u8(), s.u8());
+    let x = X { h: H(a), t: [T(b)], k: c };
+    let y = X { h: H(d), t: [T(e)], k: f };
+    let mut r = Rec::new();
+    Hash::hash(&x, &mut r);
+    assert!(r.len == 3 && r.buf[0] == a >> 1 && r.buf[1] == b >> 1 && r.buf[2] == c, "hash-feed");
+    assert!((x == y) == (a >> 1 == d >> 1 && b >> 1 == e >> 1 && c == f), "eq");
+    assert!(x.partial_cmp(&y) == Some((a >> 1, b >> 1, c).cmp(&(d >> 1, e >> 1, f))), "partial_cmp");
+}
+""", unwind=18)
     return P
+
+
+NO_STD_CORPUS = [
+    ("Clone, Copy, Debug, Default, PartialEq, Eq, PartialOrd, Ord, Hash", "struct X { a: u8, #[default(\"s\")] b: &'static str, #[default(K)] c: u8, #[default(1)] d: i64, #[default(f())] e: u8, #[default(1.5)] g: W }"),
+    ("Clone, Debug, Default, PartialEq, Eq, PartialOrd, Ord, Hash", "enum X<T> { A, #[default] B(#[debug(ignore)] u8, T), C { #[ord(key = $.len())] x: S, #[ord(by = f)] #[hash(by = h)] y: T, #[ord(reverse)] z: u8 } }"),
+    ("Clone, Debug, Default", "#[default(X::new())] struct X<'a, T: ?Sized, const N: usize> { #[debug(transparent)] a: &'a T, b: [u8; N] }"),
+    ("Add, AddAssign, Sub, Neg, Not, Shl, ShlAssign, Deref, DerefMut", "struct X<T>(T);"),
+    ("Add, Mul, BitXorAssign", "struct X { a: u8, b: W }"),
+    ("Add, AddAssign", "impl ::core::ops::Add<&Y> for &Y { type Output = Y; fn add(self, r: &Y) -> Y { Y(self.0 + r.0) } }"),
+    ("Sub", "impl<T> ::core::ops::SubAssign<Z<T>> for Z<T> where T: Copy { fn sub_assign(&mut self, r: Z<T>) { } }"),
+    ("Clone, Debug", "enum X {}"),
+    ("Clone, Debug, Default, PartialEq, Hash", "struct X;"),
+]
+
+
+def no_std_scan(out):
+    """the `#![no_std]` clause, observed on the real expansion: generated tokens name no crate other than `::core` (none of the inputs mentions std / alloc itself)"""
+    import re
+    from . import e3
+    reqs = [(mode, attr if mode == "attr" else "", item if mode == "attr" else "#[derive_ex(%s)] %s" % (attr, item))
+            for attr, item in NO_STD_CORPUS for mode in (("attr", "derive") if not item.startswith("impl") else ("attr",))]
+    res = common.expand_many(reqs)
+    n = 0
+    for rq, r in zip(reqs, res):
+        items = r.get("items", [])
+        gen = " ".join(it.get("text", "") for it in (items[1:] if rq[0] == "attr" else items))
+        n += 1
+        if r.get("panic") or common.compile_errors(r):
+            out.broken.append("no_std corpus input is not accepted: %s %s: %s" % (rq[1], rq[2][:80], (common.compile_errors(r) or [r.get("panic")])[:1]))
+            continue
+        m = re.search(r"\b(std|alloc) ::", gen)
+        if m:
+            case = {"property": PID, "kind": "matches", "mode": rq[0], "attr": rq[1], "item": rq[2], "regex": r"# \[automatically_derived\].*\b(std|alloc) ::", "expected": False, "where": "out",
+                    "explain": "generated code names `%s::`; it would not build in a #![no_std] crate" % m.group(1)}
+            path = e3.write_replay(PID, "nostd%02d" % n, case)
+            out.violation("no_std|%s" % common.norm(rq[2])[:60], path, "generated code names `%s ::` (not `::core`): ...%s... for #[derive_ex(%s)] %s" % (
+                m.group(1), gen[max(0, m.start() - 60):m.end() + 40], rq[1], rq[2][:100]))
+    return n
 
 
 def run(tier):
     t0 = time.time()
     progs = programs(tier)
+    out = common.Outcome(PID)
+    scanned = no_std_scan(out)
     return e1.finish(
-        PID, tier, progs, t0,
+        PID, tier, progs, t0, outcome=out, extra={"no_std_scan_inputs": scanned, "no_std_scan_rule": "native, not solver-decided: the generated part of the real expansion of each corpus input "
+                                                                                              "contains no path through `std` or `alloc`"},
         rule="one Kani harness per hostile program (a trait family x a set of hostile names x a use-site scope that glob-imports shadowing definitions of prelude / core names x "
              "field types with wrong-answer inherent methods); all payloads symbolic; the oracles are those of the neutral-name checks; distinct by family|names",
         bounds="%d handcrafted programs covering the comparison family (struct, enum, by/key), Clone, operators, Debug, Default, Deref, operators from a user impl; names taken from the "
                "expansion's own locals / generics (this, other, o, state, to_index, cmp, eq, hash, source, lhs, rhs, l, r, f, H, 'a, Rhs, Output) and from the prelude" % len(progs),
-        outside="whether a renamed program compiles is rustc's verdict (reported as such, not solver-decided); `#![no_std]` metadata builds; names starting with a double underscore (reserved)",
+        outside="whether a renamed program compiles is rustc's verdict (reported as such, not solver-decided); an actual `#![no_std]` build (replaced by a scan of the real expansion "
+                "for paths through std / alloc); names starting with a double underscore (reserved)",
         functions=["every derived method exercised by the programs above"],
         harness_timeout="900s")
